@@ -299,3 +299,84 @@ ID(P12_ypr__rhs)(const S *in, S *out)
   Q qy(cos(hy), 0, sin(hy), 0), qp(cos(hp), sin(hp), 0, 0), qr(cos(hr), 0, 0, sin(hr));
   put(out, qy * qp * qr);
 }
+
+// ------------------------------------------------------------------------------------------ P13: compound assignment and
+// the remaining binary operators agree with the binary products they are defined by
+#define REP4(M) M(0) M(1) M(2) M(3)
+#define REP9(M) REP4(M) M(4) M(5) M(6) M(7) M(8)
+#define REP12(M) REP9(M) M(9) M(10) M(11)
+
+ID(P13_l2_muleq__lhs)(const S *in, S *out) { L2 m = mk2(in); m *= mk2(in + 4); put(out, m); }
+ID(P13_l2_muleq__rhs)(const S *in, S *out) { put(out, mk2(in) * mk2(in + 4)); }
+
+ID(P13_l2_diveq__lhs)(const S *in, S *out) { L2 d = mk2(in); d /= mk2(in + 4); put(out, d); }
+ID(P13_l2_diveq__rhs)(const S *in, S *out) { put(out, mk2(in) * mk2(in + 4).inverse()); }
+
+ID(P13_l2_addsub__lhs)(const S *in, S *out) { L2 a = mk2(in), b = mk2(in + 4); put(out, a + b); put(out + 4, a - b); put(out + 8, -a); }
+ID(P13_l2_addsub__rhs)(const S *in, S *out)
+{
+#define E(k) out[k] = in[k] + in[4 + k]; out[4 + k] = in[k] - in[4 + k]; out[8 + k] = -in[k];
+  REP4(E)
+#undef E
+}
+
+ID(P13_l3_ops__lhs)(const S *in, S *out)
+{
+  L3 a = mk3(in), b = mk3(in + 9);
+  L3 m = a; m *= b; put(out, m);
+  L3 d = a; d /= b; put(out + 9, d);
+  put(out + 18, a + b); put(out + 27, a - b); put(out + 36, -a); put(out + 45, in[18] * a); put(out + 54, a / in[18]);
+}
+ID(P13_l3_ops__rhs)(const S *in, S *out)
+{
+  L3 a = mk3(in), b = mk3(in + 9);
+  put(out, a * b);
+  put(out + 9, a * b.inverse());
+#define E(k) out[18 + k] = in[k] + in[9 + k]; out[27 + k] = in[k] - in[9 + k]; out[36 + k] = -in[k]; out[45 + k] = in[18] * in[k]; out[54 + k] = in[k] / in[18];
+  REP9(E)
+#undef E
+}
+
+ID(P13_affine_ops__lhs)(const S *in, S *out)
+{
+  A3 a = mka(in), b = mka(in + 12);
+  A3 m = a; m *= b; put(out, m);
+  A3 d = a; d /= b; put(out + 12, d);
+  put(out + 24, a + b); put(out + 36, a - b); put(out + 48, -a); put(out + 60, in[24] * a);
+}
+ID(P13_affine_ops__rhs)(const S *in, S *out)
+{
+  A3 a = mka(in), b = mka(in + 12);
+  put(out, a * b);
+  put(out + 12, a * rcp(b));
+#define E(k) out[24 + k] = in[k] + in[12 + k]; out[36 + k] = in[k] - in[12 + k]; out[48 + k] = -in[k]; out[60 + k] = in[24] * in[k];
+  REP12(E)
+#undef E
+}
+
+ID(P13_quat_ops__lhs)(const S *in, S *out)
+{
+  Q a = mkq(in), b = mkq(in + 4);
+  Q m = a; m *= b; put(out, m);
+  Q d = a; d /= b; put(out + 4, d);
+  Q p = a; p += b; put(out + 8, p);
+  Q n = a; n -= b; put(out + 12, n);
+  Q ms = a; ms *= in[8]; put(out + 16, ms);
+  Q ds = a; ds /= in[8]; put(out + 20, ds);
+  put(out + 24, a + b); put(out + 28, a - b); put(out + 32, -a); put(out + 36, in[8] * a); put(out + 40, a * in[8]);
+  put(out + 44, a / b); put(out + 48, a + in[8]); put(out + 52, in[8] - a);
+}
+ID(P13_quat_ops__rhs)(const S *in, S *out)
+{
+  Q a = mkq(in), b = mkq(in + 4);
+  S s = in[8];
+  put(out, a * b);
+  put(out + 4, a * rcp(b));
+#define E(k) out[8 + k] = in[k] + in[4 + k]; out[12 + k] = in[k] - in[4 + k]; out[16 + k] = in[k] * s; out[20 + k] = in[k] / s; \
+             out[24 + k] = in[k] + in[4 + k]; out[28 + k] = in[k] - in[4 + k]; out[32 + k] = -in[k]; out[36 + k] = s * in[k]; out[40 + k] = in[k] * s;
+  REP4(E)
+#undef E
+  put(out + 44, a * rcp(b));
+  out[48] = in[0] + s; out[49] = in[1]; out[50] = in[2]; out[51] = in[3];
+  out[52] = s - in[0]; out[53] = -in[1]; out[54] = -in[2]; out[55] = -in[3];
+}
